@@ -153,6 +153,50 @@ pub fn run_workload(sub: u64, only_plan: Option<&str>, acc: &mut Acc, ctx: &Ctx,
         let summary = format!("rg on the UTF-16 file under plan {:?}: exit {} ({} bytes of stdout, stderr {:?}); on the UTF-8 equivalent: exit {} ({} bytes)", plan, got.code, got.stdout.len(), show(&got.stderr), reference.code, reference.stdout.len());
         acc.violation("C17", &class, summary, sub, body(sub, &w, &spec, &reference, &got));
     }
+    // Several marked files under several worker threads (each thread searches with its
+    // own clone of the searcher) and an explicit label that every mark overrides.
+    let tree_plan = vec!["noop=17".to_string()];
+    if only_plan.map_or(true, |p| p == tree_plan.join(";")) && w.text.len() < 4000 {
+        let t16 = |be: bool| {
+            let mut d: Vec<u8> = if be { b"\xFE\xFF".to_vec() } else { b"\xFF\xFE".to_vec() };
+            for u in w.text.encode_utf16() {
+                d.extend_from_slice(&if be { u.to_be_bytes() } else { u.to_le_bytes() });
+            }
+            d
+        };
+        for d in [&enc_dir, &ref_dir] {
+            std::fs::create_dir_all(d.join("t")).unwrap();
+        }
+        let mut utf8_marked = b"\xEF\xBB\xBF".to_vec();
+        utf8_marked.extend_from_slice(w.text.as_bytes());
+        for (name, data) in [("a.txt", t16(false)), ("b.txt", utf8_marked), ("c.txt", t16(true)), ("d.txt", t16(w.be))] {
+            std::fs::write(enc_dir.join("t").join(name), data).unwrap();
+            std::fs::write(ref_dir.join("t").join(name), w.text.as_bytes()).unwrap();
+        }
+        let label = ["utf-16le", "utf-16be", "latin1", "shift_jis", "utf-8", "windows-1252"][rng.below(6)];
+        let threads = 2 + rng.below(3);
+        let mut targs: Vec<String> = args.iter().filter(|a| *a != "-j1" && *a != "w/doc.txt").cloned().collect();
+        let pat = targs.pop().unwrap();
+        let mut rargs = targs.clone();
+        rargs.extend(["-j1".into(), pat.clone(), "t".into()]);
+        targs.extend([format!("-j{threads}"), "-E".into(), label.into(), pat, "t".into()]);
+        let tref = ctx.run(&ref_dir, &RunSpec { args: rargs, ..RunSpec::default() }, 60);
+        let spec = RunSpec { args: targs, plan: tree_plan.clone(), ..RunSpec::default() };
+        let got = ctx.run(&enc_dir, &spec, 60);
+        acc.evals += 2;
+        acc.mix.inc("marked-files-under-worker-threads-with-conflicting-label");
+        let sorted = |o: &RunOut| {
+            let mut l: Vec<Vec<u8>> = lines(&o.stdout).into_iter().map(|x| x.to_vec()).collect();
+            l.sort();
+            l
+        };
+        let (a, b) = (sorted(&got), sorted(&tref));
+        digest = fnv_step(digest, fnv(&a.concat()) ^ got.code as u64);
+        if a != b || got.code != tref.code || !got.stderr.is_empty() {
+            let summary = format!("4 files with byte-order marks searched with -j{threads} -E {label}: exit {} with {} lines (stderr {:?}); rg on their UTF-8 equivalents: exit {} with {} lines", got.code, a.len(), show(&got.stderr), tref.code, b.len());
+            acc.violation("C17", "cli-marked-files-with-conflicting-label-under-threads", summary, sub, body(sub, &w, &spec, &tref, &got));
+        }
+    }
     if nontrivial {
         acc.distinct.insert(fnv(w.text.as_bytes()) ^ sub);
     }
